@@ -82,7 +82,22 @@ func (e EvmEngine) genLeaf(r *Run, bit int, nNodes int, v *ChainView) []PAct {
 	stakeAmt := unitAmount(bit, 1e15)
 	shares := unitAmount(bit, 1e12)
 	tokAmt := unitAmount(bit, 10)
-	switch r.Rng.IntN(14) {
+	switch r.Rng.IntN(16) {
+	case 14, 15:
+		// query methods: whatever they do to native state must go the way of their frame like everything else
+		switch r.Rng.IntN(5) {
+		case 0, 1:
+			if r.Pct(60) {
+				return []PAct{mk("staking", "delegationRewards", val, strings.Replace(val, "$valop", "$valacc", 1))}
+			}
+			return []PAct{mk("staking", "delegationRewards", val, someone())}
+		case 2:
+			return []PAct{mk("staking", "delegation", val, someone())}
+		case 3:
+			return []PAct{mk("staking", "allowanceShares", val, someone(), someone())}
+		default:
+			return []PAct{mk("staking", "slashingInfo", val)}
+		}
 	case 0, 1, 2:
 		return []PAct{mk("staking", "delegateV2", val, stakeAmt)}
 	case 3:
